@@ -658,8 +658,32 @@ static struct ompi_request_t *req_new(int kind)
     return q;
 }
 
+/* MPI errors are fatal (MPI_ERRORS_ARE_FATAL is what PaRSEC runs with): report them as a verdict of the run */
+void hx_abort_run(const char *vclass, const char *detail) __attribute__((weak));
+static void mpi_fatal(const char *call, const char *what)
+{
+    char msg[256];
+    snprintf(msg, sizeof(msg), "%s on rank %d: %s (a real MPI aborts the job here: MPI_ERRORS_ARE_FATAL)", call, myrank(), what);
+    if (hx_abort_run) hx_abort_run("mpi-error", msg);
+    fprintf(stderr, "[simmpi] %s\n", msg);
+    abort();
+}
+static void check_dt(const char *call, const struct ompi_datatype_t *t)
+{
+    if (!t || t->magic != MAGIC_DT) mpi_fatal(call, "invalid datatype (MPI_ERR_TYPE: freed or garbage handle)");
+    if (t == &ompi_mpi_datatype_null.d) mpi_fatal(call, "invalid datatype (MPI_ERR_TYPE: MPI_DATATYPE_NULL)");
+}
+static void check_comm(const char *call, const struct ompi_communicator_t *c)
+{
+    if (!c || c->magic != MAGIC_COMM || c->is_null) mpi_fatal(call, "invalid communicator (MPI_ERR_COMM)");
+}
+
 static void do_send(const void *buf, int count, MPI_Datatype t, int dest, int tag, MPI_Comm c, struct ompi_request_t *sreq, int am)
 {
+    check_comm(am ? "MPI_Send" : "MPI_Isend", c);
+    check_dt(am ? "MPI_Send" : "MPI_Isend", t);
+    if (count < 0) mpi_fatal(am ? "MPI_Send" : "MPI_Isend", "negative count (MPI_ERR_COUNT)");
+    if (dest < 0 || dest >= (c->is_self ? 1 : c->size)) mpi_fatal(am ? "MPI_Send" : "MPI_Isend", "invalid destination rank (MPI_ERR_RANK)");
     int me = myrank();
     int dst = comm_world_of(c, dest);
     msg_t *m = calloc(1, sizeof(*m));
@@ -710,6 +734,8 @@ int MPI_Isend(const void *buf, int count, MPI_Datatype t, int dest, int tag, MPI
 int MPI_Irecv(void *buf, int count, MPI_Datatype t, int src, int tag, MPI_Comm c, MPI_Request *req)
 {
     sim_point();
+    check_comm("MPI_Irecv", c);
+    check_dt("MPI_Irecv", t);
     struct ompi_request_t *q = req_new(1);
     q->comm = c; q->peer = src; q->tag = tag; q->buf = buf; q->count = count; q->type = t;
     post_recv(q);
